@@ -275,13 +275,20 @@ theorem wrapper_facts_ok :
     InputMode.ofString Verif.Gen.ApiFacts.stringInput = some .conv ∧
     Verif.Gen.ApiFacts.bytesOnErr = "orig" ∧ Verif.Gen.ApiFacts.stringOnErr = "orig" := by decide
 
-/-- the observable recursion / size limits are exactly the expected ones (removing or changing one
-    changes the regenerated list) -/
-theorem limits_ok : Verif.Gen.ApiFacts.limits =
-    ["css.cssMinifier.minifyProperty: 100 < len(values)", "css.cssMinifier.minifyTokens: 100 < c.tokensLevel + 1",
-     "js.binaryNumber: 65 < len(b)", "js.jsMinifier.hoistVars: 10000 < len(decl.List)",
-     "js.mergeBinaryExpr: 50 < len(strings)", "js.replaceEscapes: num < 256",
-     "minify.Mediatype: i - lastString < 1024", "svg.PathData.ShortenPathData: 100000 < len(b)"] := by decide
+/-- The observable recursion / size limits the totality argument (and the deep-nesting / long-input runs of the harness) rely on,
+    as `package: boundary N` = "some comparison in that package separates `X ≤ N` from `X > N` for an int expression `X`"
+    (css: 100 values per property, nesting depth 100; js: 50 string parts, 65 binary digits, 10000 hoisted declarations;
+    minify.Mediatype: 1024 bytes lower-cased; svg: 100000 bytes of path data).  The translator normalises the spelling
+    (`N < X`, `X > N`, `X >= N+1`, `N < X+1`, named constants, a helper predicate), see harness/cmd/extract/c10_api.go. -/
+def expectedLimits : List (String × Nat) :=
+  [("css: boundary 100", 1), ("css: boundary 99", 1), ("js: boundary 50", 1), ("js: boundary 65", 1),
+   ("js: boundary 10000", 1), ("minify: boundary 1023", 1), ("svg: boundary 100000", 1)]
+
+/-- every expected limit is still present in the regenerated facts (removing one, or changing its value, removes its key);
+    comparisons that are not limits of the model are ignored -/
+theorem limits_ok :
+    expectedLimits.all (fun kn => Verif.Gen.ApiFacts.limitKeys.any (fun kc => kc.1 == kn.1 && decide (kn.2 ≤ kc.2))) = true := by
+  decide
 
 end Api
 
